@@ -11,114 +11,110 @@ open Influx.Generated.KeyCursor Influx.Spec.C06
 
 /-! ### newest -/
 
-theorem newestFrom_spec : ∀ (files : List FileSpec) (i : Nat) (ts : Int) (v : Nat),
+theorem newestFrom_none : ∀ (files : List FileSpec) (i : Nat) (ts : Int),
+    newestFrom i files ts = none ↔ ∀ (j : Nat) (g : FileSpec), files[j]? = some g → g.live ts = false
+  | [], i, ts => by simp [newestFrom]
+  | f :: fs, i, ts => by
+    simp only [newestFrom]
+    have ih := newestFrom_none fs (i + 1) ts
+    cases hrec : newestFrom (i + 1) fs ts with
+    | some w =>
+      simp only [reduceCtorEq, false_iff]
+      intro hall
+      have : newestFrom (i + 1) fs ts = none := ih.2 (fun j g hg => hall (j + 1) g (by simpa using hg))
+      rw [hrec] at this; cases this
+    | none =>
+      have hfs := ih.1 hrec
+      simp only
+      cases hl : f.live ts with
+      | true =>
+        simp only [if_true, reduceCtorEq, false_iff]
+        intro hall
+        have := hall 0 f (by simp)
+        rw [hl] at this; cases this
+      | false =>
+        simp only [Bool.false_eq_true, if_false, true_iff]
+        intro j g hg
+        cases j with
+        | zero => simp at hg; subst hg; exact hl
+        | succ j => simp at hg; exact hfs j g hg
+
+theorem newestFrom_some : ∀ (files : List FileSpec) (i : Nat) (ts : Int) (v : Nat),
     newestFrom i files ts = some v ↔
-      i ≤ v ∧ (∃ f, files[v - i]? = some f ∧ f.live ts = true) ∧
-      ∀ j f, v - i < j → files[j]? = some f → f.live ts = false
+      ∃ k, v = i + k ∧ (∃ f : FileSpec, files[k]? = some f ∧ f.live ts = true) ∧
+        ∀ (j : Nat) (g : FileSpec), k < j → files[j]? = some g → g.live ts = false
   | [], i, ts, v => by simp [newestFrom]
   | f :: fs, i, ts, v => by
     simp only [newestFrom]
-    have ih := newestFrom_spec fs (i + 1) ts
+    have ih := newestFrom_some fs (i + 1) ts
     cases hrec : newestFrom (i + 1) fs ts with
     | some w =>
       simp only [Option.some.injEq]
-      obtain ⟨hw1, ⟨g, hg1, hg2⟩, hw3⟩ := (ih w).1 hrec
+      obtain ⟨k', hw, ⟨g', hg1, hg2⟩, hlater⟩ := (ih w).1 hrec
       constructor
       · rintro rfl
-        refine ⟨by omega, ⟨g, ?_, hg2⟩, ?_⟩
-        · have : w - i = (w - (i + 1)) + 1 := by omega
-          rw [this]; simpa using hg1
-        · intro j g' hj hg'
-          cases j with
-          | zero => omega
-          | succ j =>
-            simp at hg'
-            exact hw3 j g' (by omega) hg'
-      · rintro ⟨hv1, ⟨g', hg1', hg2'⟩, hv3⟩
-        -- both w and v are "the" newest
-        apply Classical.byContradiction
-        intro hne
-        rcases Nat.lt_or_gt_of_ne hne with h | h
-        · -- w < v: fs[v-(i+1)] is live, contradicting w's maximality
-          have hpos : v - i = (v - (i + 1)) + 1 := by omega
-          rw [hpos] at hg1'
-          simp at hg1'
-          have := hw3 (v - (i + 1)) g' (by omega) hg1'
-          rw [this] at hg2'; cases hg2'
-        · have hpos : w - i = (w - (i + 1)) + 1 := by omega
-          have : (f :: fs)[w - i]? = some g := by rw [hpos]; simpa using hg1
-          have := hv3 (w - i) g (by omega) this
-          rw [this] at hg2; cases hg2
+        refine ⟨k' + 1, by omega, ⟨g', by simpa using hg1, hg2⟩, ?_⟩
+        intro j g hj hg
+        cases j with
+        | zero => omega
+        | succ j => simp at hg; exact hlater j g (by omega) hg
+      · rintro ⟨k, hv, ⟨g, hgk, hgl⟩, hl2⟩
+        have hk : k = k' + 1 := by
+          apply Classical.byContradiction
+          intro hne
+          rcases Nat.lt_or_gt_of_ne hne with h | h
+          · have := hl2 (k' + 1) g' h (by simpa using hg1)
+            rw [this] at hg2; cases hg2
+          · cases k with
+            | zero => omega
+            | succ k0 =>
+              simp at hgk
+              have := hlater k0 g (by omega) hgk
+              rw [this] at hgl; cases hgl
+        omega
     | none =>
+      have hfs := (newestFrom_none fs (i + 1) ts).1 hrec
       simp only
-      have hnone : ∀ j g, fs[j]? = some g → g.live ts = false := by
-        intro j g hg
-        cases hl : g.live ts with
-        | false => rfl
-        | true =>
-          exfalso
-          -- then some newest exists in fs
-          have : ∃ w, newestFrom (i + 1) fs ts = some w := by
-            -- take the largest live index: induction on fs would be needed; use the recursive
-            -- characterisation instead: a `none` result means no live file
-            clear ih
-            induction fs generalizing i j with
-            | nil => simp at hg
-            | cons f' fs' ih' =>
-              simp only [newestFrom] at hrec ⊢
-              cases h2 : newestFrom (i + 1 + 1) fs' ts with
-              | some w => exact ⟨w, by simp⟩
-              | none =>
-                rw [h2] at hrec
-                simp only at hrec
-                cases j with
-                | zero =>
-                  simp at hg; subst hg
-                  rw [hl] at hrec; simp at hrec
-                | succ j =>
-                  simp at hg
-                  obtain ⟨w, hw⟩ := ih' (i + 1) j hg h2
-                  rw [h2] at hw; cases hw
-          obtain ⟨w, hw⟩ := this
-          rw [hrec] at hw; cases hw
-      split
-      · rename_i hlive
-        simp only [Option.some.injEq]
+      cases hl : f.live ts with
+      | true =>
+        simp only [if_true, Option.some.injEq]
         constructor
         · rintro rfl
-          refine ⟨Nat.le_refl _, ⟨f, by simp, hlive⟩, ?_⟩
+          refine ⟨0, by omega, ⟨f, by simp, hl⟩, ?_⟩
           intro j g hj hg
           cases j with
           | zero => omega
-          | succ j => simp at hg; exact hnone j g hg
-        · rintro ⟨hv1, ⟨g, hg1, hg2⟩, _⟩
-          apply Classical.byContradiction
-          intro hne
-          have hpos : v - i = (v - i - 1) + 1 := by omega
-          rw [hpos] at hg1
-          simp at hg1
-          have := hnone _ g hg1
-          rw [this] at hg2; cases hg2
-      · rename_i hlive
-        constructor
-        · intro h; cases h
-        · rintro ⟨hv1, ⟨g, hg1, hg2⟩, _⟩
-          exfalso
-          by_cases hz : v - i = 0
-          · rw [hz] at hg1; simp at hg1; subst hg1; exact hlive hg2
-          · have hpos : v - i = (v - i - 1) + 1 := by omega
-            rw [hpos] at hg1
+          | succ j => simp at hg; exact hfs j g hg
+        · rintro ⟨k, hv, ⟨g, hg1, hg2⟩, _⟩
+          cases k with
+          | zero => omega
+          | succ k0 =>
             simp at hg1
-            have := hnone _ g hg1
+            have := hfs k0 g hg1
             rw [this] at hg2; cases hg2
+      | false =>
+        simp only [Bool.false_eq_true, if_false, reduceCtorEq, false_iff]
+        rintro ⟨k, hv, ⟨g, hg1, hg2⟩, _⟩
+        cases k with
+        | zero => simp at hg1; subst hg1; rw [hl] at hg2; cases hg2
+        | succ k0 =>
+          simp at hg1
+          have := hfs k0 g hg1
+          rw [this] at hg2; cases hg2
 
 theorem newest_spec (files : List FileSpec) (ts : Int) (v : Nat) :
     newest files ts = some v ↔
-      (∃ f, files[v]? = some f ∧ f.live ts = true) ∧
-      ∀ j f, v < j → files[j]? = some f → f.live ts = false := by
+      (∃ f : FileSpec, files[v]? = some f ∧ f.live ts = true) ∧
+      ∀ (j : Nat) (f : FileSpec), v < j → files[j]? = some f → f.live ts = false := by
   unfold newest
-  rw [newestFrom_spec]
-  simp
+  rw [newestFrom_some]
+  constructor
+  · rintro ⟨k, hv, h1, h2⟩
+    have : v = k := by omega
+    subst this
+    exact ⟨h1, h2⟩
+  · rintro ⟨h1, h2⟩
+    exact ⟨v, by omega, h1, h2⟩
 
 /-! ### the sorted list of all timestamps -/
 
